@@ -713,7 +713,8 @@ def r8(ctx):
                 msgs = [m for m in _counts_account_for_drop(f)]
                 ctx.check(not msgs, "C06.R8", f"{f.qualname}: row counts subtract len(drop_rows)", f.where,
                           ctx.construct(f, text="row count"), "; ".join(msgs))
-    ctx.floor("C06.R8", n, 4, "row-count expressions in functions taking drop_rows")
+    # one of the four row-count expressions may have been replaced by something else: that is what W2 (empty matrix rows) reports
+    ctx.floor("C06.R8", n, 3, "row-count expressions in functions taking drop_rows")
     # the output index of the pandas materializer is reduced by drop_rows before ANY frame is built from it (also the zero-column frame)
     f = P.cls(PANDAS).methods["_combine_columns"]
     from .c05 import eval_output_test
